@@ -386,6 +386,11 @@ func (e *SvcEngine) DoSys(ctx *core.Context, r Req) string {
 			return "ERR"
 		}
 		return "ok"
+	case "delete":
+		if err := s.DeleteLocation(ctx, r.Loc); err != nil {
+			return "ERR"
+		}
+		return "ok"
 	case "query":
 		qr, err := s.Query(ctx, r.Loc, h.Canon(r.J))
 		if err != nil {
